@@ -260,4 +260,18 @@ inductive Steps (P : Params) : St → St → Prop
   | refl (s : St) : Steps P s s
   | step {s s' s'' : St} (a : Act) : Steps P s s' → step P s' a = some s'' → Steps P s s''
 
+/-! ### which actions are the executor's own (liveness: Props `C18_no_stuck`, `C18_progress`; driver op `quiet`) -/
+
+/-- actions of the executor's own goroutines, as opposed to moves of the environment: a NEW Execute call beginning
+(`sub i` at `idle`), a task body returning (`finish`), and — unless `called` — the Shutdown call being made
+(`closer` at `idle`; with `called = true` the closer at `idle` is a goroutine waiting in `guard.Lock()`).
+Go's `sync.RWMutex` prefers the writer: while a `Lock()` is pending no new reader gets in.  The LTS lets the reader
+in (more behaviours, right for safety); for liveness that step must not be the witness, so an `RLock` taken while
+the Shutdown call waits for the lock does not count as internal here. -/
+def Act.internal (called : Bool) (s : St) : Act → Bool
+  | .sub i => s.subs[i]? != some .idle && !(s.subs[i]? == some .rlock && (called && s.closer == .idle))
+  | .finish _ _ => false
+  | .closer => called || s.closer != .idle
+  | _ => true
+
 end Fatchoy.C18
